@@ -1,7 +1,910 @@
-//! C21 — not built yet.
-use vcore::Ctx;
+//! C21 — secret arguments never appear in logged or traced query text.
+//!
+//! Schema S marks arguments and input-object fields secret at depths 0..3 (argument, Cred, Inner, Deep), under
+//! object, interface and union parents. Generated documents put a unique sentinel into every scalar position;
+//! a sentinel is secret iff the argument or any input field on its path is marked secret. A harness extension
+//! calls `ExtensionContext::stringify_execute_doc` in its `parse_query` hook, the shipped `Logger` extension
+//! writes into a `log::Log` sink; no secret sentinel may occur in either text.
+use async_graphql::extensions::{Extension, ExtensionContext, ExtensionFactory, Logger, NextParseQuery};
+use async_graphql::parser::types::ExecutableDocument;
+use async_graphql::{Context, EmptySubscription, InputObject, Interface, Object, OneofObject, Request, Schema, ServerResult, Union, Variables};
+use serde_json::{json, Map, Value as J};
+use std::sync::{Arc, Mutex};
+use vcore::{Case, Ctx, Src};
 
-pub fn run(_ctx: &mut Ctx) {
-    eprintln!("C21: check not built yet");
-    std::process::exit(2);
+// ---------------------------------------------------------------------------------------------------------------
+// schema S
+
+#[derive(InputObject)]
+struct Deep {
+    tag: Option<String>,
+    level: Option<i32>,
+    #[graphql(secret)]
+    key: Option<String>,
+    #[graphql(secret)]
+    pin: Option<i32>,
+}
+#[derive(InputObject)]
+struct Inner {
+    label: Option<String>,
+    #[graphql(secret)]
+    token: Option<String>,
+    deep: Option<Deep>,
+    deeps: Option<Vec<Deep>>,
+}
+#[derive(InputObject)]
+struct Cred {
+    user: Option<String>,
+    #[graphql(secret)]
+    password: Option<String>,
+    inner: Option<Inner>,
+    inners: Option<Vec<Inner>>,
+    #[graphql(secret)]
+    recovery: Option<Inner>,
+}
+#[derive(OneofObject)]
+enum Login {
+    Name(String),
+    #[graphql(secret)]
+    Token(String),
+}
+
+struct Account;
+#[Object]
+#[allow(unused_variables)]
+impl Account {
+    async fn id(&self) -> i32 {
+        1
+    }
+    async fn verify(&self, _ctx: &Context<'_>, #[graphql(secret)] code: Option<String>, hint: Option<String>) -> bool {
+        true
+    }
+    async fn update(&self, _ctx: &Context<'_>, cred: Option<Cred>) -> bool {
+        true
+    }
+    async fn child(&self) -> Account {
+        Account
+    }
+    async fn principal(&self) -> Principal {
+        Principal::Robot(Robot)
+    }
+    async fn actor(&self) -> Actor {
+        Actor::Account(Account)
+    }
+}
+struct Robot;
+#[Object]
+#[allow(unused_variables)]
+impl Robot {
+    async fn id(&self) -> i32 {
+        2
+    }
+    async fn verify(&self, _ctx: &Context<'_>, #[graphql(secret)] code: Option<String>, hint: Option<String>) -> bool {
+        false
+    }
+    async fn update(&self, _ctx: &Context<'_>, cred: Option<Cred>) -> bool {
+        false
+    }
+    async fn unlock(&self, #[graphql(secret)] key: Option<String>, slot: Option<i32>) -> bool {
+        true
+    }
+    async fn owner(&self) -> Account {
+        Account
+    }
+}
+#[derive(Interface)]
+#[graphql(
+    field(name = "id", ty = "i32"),
+    field(name = "verify", ty = "bool", arg(name = "code", ty = "Option<String>", secret), arg(name = "hint", ty = "Option<String>")),
+    field(name = "update", ty = "bool", arg(name = "cred", ty = "Option<Cred>"))
+)]
+enum Principal {
+    Account(Account),
+    Robot(Robot),
+}
+#[derive(Union)]
+enum Actor {
+    Account(Account),
+    Robot(Robot),
+}
+struct Query;
+#[Object]
+#[allow(unused_variables)]
+impl Query {
+    async fn login(&self, user: Option<String>, #[graphql(secret)] password: Option<String>) -> Account {
+        Account
+    }
+    async fn auth(&self, cred: Option<Cred>) -> Account {
+        Account
+    }
+    async fn batch(&self, creds: Option<Vec<Cred>>, note: Option<String>) -> i32 {
+        creds.map(|c| c.len() as i32).unwrap_or(-1)
+    }
+    async fn vault(&self, #[graphql(secret)] cred: Option<Cred>, label: Option<String>) -> i32 {
+        0
+    }
+    async fn pins(&self, #[graphql(secret)] pins: Option<Vec<String>>, label: Option<String>) -> i32 {
+        0
+    }
+    async fn by(&self, login: Option<Login>) -> i32 {
+        0
+    }
+    async fn account(&self) -> Account {
+        Account
+    }
+    async fn principal(&self) -> Principal {
+        Principal::Account(Account)
+    }
+    async fn actor(&self) -> Actor {
+        Actor::Robot(Robot)
+    }
+}
+struct Mutation;
+#[Object]
+#[allow(unused_variables)]
+impl Mutation {
+    async fn reset(&self, #[graphql(secret)] fresh: Option<String>, user: Option<String>) -> bool {
+        true
+    }
+    async fn rotate(&self, cred: Option<Cred>) -> Account {
+        Account
+    }
+}
+
+// ---------------------------------------------------------------------------------------------------------------
+// observation: harness extension + log sink
+
+#[derive(Clone, Default)]
+struct Tap(Arc<Mutex<Vec<String>>>);
+impl ExtensionFactory for Tap {
+    fn create(&self) -> Arc<dyn Extension> {
+        Arc::new(TapExt(self.0.clone()))
+    }
+}
+struct TapExt(Arc<Mutex<Vec<String>>>);
+#[async_trait::async_trait]
+impl Extension for TapExt {
+    async fn parse_query(&self, ctx: &ExtensionContext<'_>, query: &str, variables: &Variables, next: NextParseQuery<'_>) -> ServerResult<ExecutableDocument> {
+        let doc = next.run(ctx, query, variables).await?;
+        self.0.lock().unwrap().push(ctx.stringify_execute_doc(&doc, variables));
+        Ok(doc)
+    }
+}
+
+struct Sink(Mutex<Vec<String>>);
+static SINK: Sink = Sink(Mutex::new(Vec::new()));
+impl log::Log for Sink {
+    fn enabled(&self, _: &log::Metadata) -> bool {
+        true
+    }
+    fn log(&self, record: &log::Record) {
+        self.0.lock().unwrap().push(format!("{}", record.args()));
+    }
+    fn flush(&self) {}
+}
+
+// ---------------------------------------------------------------------------------------------------------------
+// hand-written model of S
+
+#[derive(Clone, Copy, PartialEq, Eq, Debug)]
+enum PTy {
+    Query,
+    Mutation,
+    Account,
+    Robot,
+    Principal,
+    Actor,
+}
+impl PTy {
+    fn name(self) -> &'static str {
+        match self {
+            PTy::Query => "Query",
+            PTy::Mutation => "Mutation",
+            PTy::Account => "Account",
+            PTy::Robot => "Robot",
+            PTy::Principal => "Principal",
+            PTy::Actor => "Actor",
+        }
+    }
+    fn conditions(self) -> &'static [PTy] {
+        match self {
+            PTy::Query => &[PTy::Query],
+            PTy::Mutation => &[PTy::Mutation],
+            PTy::Account => &[PTy::Account, PTy::Account, PTy::Principal, PTy::Actor],
+            PTy::Robot => &[PTy::Robot, PTy::Robot, PTy::Principal, PTy::Actor],
+            PTy::Principal | PTy::Actor => &[PTy::Account, PTy::Robot, PTy::Principal, PTy::Actor],
+        }
+    }
+}
+#[derive(Clone, Copy, PartialEq, Eq, Debug)]
+enum InTy {
+    Cred,
+    Inner,
+    Deep,
+    Login,
+}
+impl InTy {
+    fn name(self) -> &'static str {
+        match self {
+            InTy::Cred => "Cred",
+            InTy::Inner => "Inner",
+            InTy::Deep => "Deep",
+            InTy::Login => "Login",
+        }
+    }
+}
+#[derive(Clone, Copy, PartialEq, Eq, Debug)]
+enum ATy {
+    Str,
+    Int,
+    In(InTy),
+    ListStr,
+    ListIn(InTy),
+}
+impl ATy {
+    fn gql(self) -> String {
+        match self {
+            ATy::Str => "String".into(),
+            ATy::Int => "Int".into(),
+            ATy::In(t) => t.name().into(),
+            ATy::ListStr => "[String!]".into(),
+            ATy::ListIn(t) => format!("[{}!]", t.name()),
+        }
+    }
+}
+/// (name, secret, type)
+type InputM = (&'static str, bool, ATy);
+fn in_fields(t: InTy) -> &'static [InputM] {
+    match t {
+        InTy::Cred => &[("user", false, ATy::Str), ("password", true, ATy::Str), ("inner", false, ATy::In(InTy::Inner)), ("inners", false, ATy::ListIn(InTy::Inner)), ("recovery", true, ATy::In(InTy::Inner))],
+        InTy::Inner => &[("label", false, ATy::Str), ("token", true, ATy::Str), ("deep", false, ATy::In(InTy::Deep)), ("deeps", false, ATy::ListIn(InTy::Deep))],
+        InTy::Deep => &[("tag", false, ATy::Str), ("level", false, ATy::Int), ("key", true, ATy::Str), ("pin", true, ATy::Int)],
+        InTy::Login => &[("name", false, ATy::Str), ("token", true, ATy::Str)],
+    }
+}
+struct FieldM {
+    name: &'static str,
+    args: &'static [InputM],
+    ret: Option<PTy>,
+}
+const VERIFY: &[InputM] = &[("code", true, ATy::Str), ("hint", false, ATy::Str)];
+const UPDATE: &[InputM] = &[("cred", false, ATy::In(InTy::Cred))];
+fn fields(t: PTy) -> Vec<FieldM> {
+    let f = |name, args, ret| FieldM { name, args, ret };
+    match t {
+        PTy::Query => vec![
+            f("login", &[("user", false, ATy::Str), ("password", true, ATy::Str)], Some(PTy::Account)),
+            f("auth", UPDATE, Some(PTy::Account)),
+            f("batch", &[("creds", false, ATy::ListIn(InTy::Cred)), ("note", false, ATy::Str)], None),
+            f("vault", &[("cred", true, ATy::In(InTy::Cred)), ("label", false, ATy::Str)], None),
+            f("pins", &[("pins", true, ATy::ListStr), ("label", false, ATy::Str)], None),
+            f("by", &[("login", false, ATy::In(InTy::Login))], None),
+            f("account", &[], Some(PTy::Account)),
+            f("principal", &[], Some(PTy::Principal)),
+            f("actor", &[], Some(PTy::Actor)),
+        ],
+        PTy::Mutation => vec![f("reset", &[("fresh", true, ATy::Str), ("user", false, ATy::Str)], None), f("rotate", UPDATE, Some(PTy::Account))],
+        PTy::Account => vec![
+            f("id", &[], None),
+            f("verify", VERIFY, None),
+            f("update", UPDATE, None),
+            f("child", &[], Some(PTy::Account)),
+            f("principal", &[], Some(PTy::Principal)),
+            f("actor", &[], Some(PTy::Actor)),
+        ],
+        PTy::Robot => vec![
+            f("id", &[], None),
+            f("verify", VERIFY, None),
+            f("update", UPDATE, None),
+            f("unlock", &[("key", true, ATy::Str), ("slot", false, ATy::Int)], None),
+            f("owner", &[], Some(PTy::Account)),
+        ],
+        PTy::Principal => vec![f("id", &[], None), f("verify", VERIFY, None), f("update", UPDATE, None)],
+        PTy::Actor => vec![],
+    }
+}
+
+// ---------------------------------------------------------------------------------------------------------------
+// documents
+
+#[derive(Clone, Debug)]
+enum V {
+    Str(String),
+    Int(i64),
+    Var(String),
+    List(Vec<V>),
+    Obj(Vec<(&'static str, V)>),
+}
+fn gql_string(s: &str) -> String {
+    let mut o = String::from("\"");
+    for c in s.chars() {
+        match c {
+            '"' => o.push_str("\\\""),
+            '\\' => o.push_str("\\\\"),
+            '\n' => o.push_str("\\n"),
+            c => o.push(c),
+        }
+    }
+    o.push('"');
+    o
+}
+impl V {
+    fn gql(&self) -> String {
+        match self {
+            V::Str(s) => gql_string(s),
+            V::Int(i) => i.to_string(),
+            V::Var(n) => format!("${}", n),
+            V::List(l) => format!("[{}]", l.iter().map(|v| v.gql()).collect::<Vec<_>>().join(", ")),
+            V::Obj(o) => format!("{{{}}}", o.iter().map(|(k, v)| format!("{}: {}", k, v.gql())).collect::<Vec<_>>().join(", ")),
+        }
+    }
+    fn json(&self) -> J {
+        match self {
+            V::Str(s) => json!(s),
+            V::Int(i) => json!(i),
+            V::Var(_) => unreachable!("constant values contain no variables"),
+            V::List(l) => J::Array(l.iter().map(|v| v.json()).collect()),
+            V::Obj(o) => J::Object(o.iter().map(|(k, v)| (k.to_string(), v.json())).collect::<Map<_, _>>()),
+        }
+    }
+}
+enum Sel {
+    Typename,
+    Field { alias: Option<String>, name: &'static str, args: Vec<(&'static str, V)>, sub: Option<Vec<Sel>> },
+    Inline { on: Option<PTy>, sub: Vec<Sel> },
+    Spread(usize),
+}
+struct VarDef {
+    name: String,
+    ty: String,
+    default: Option<V>,
+    value: Option<V>,
+}
+
+/// where a sentinel sits
+#[derive(Clone, Debug)]
+struct Sent {
+    needle: String,
+    secret: bool,
+    /// a list value lies between the argument and the first secret marker on the path (C21-F1)
+    below_list: bool,
+    /// the field carrying the argument lies under an inline fragment without type condition, with no typed
+    /// inline fragment / fragment definition in between (C21-F2)
+    untyped: bool,
+    /// inside the default value of a variable that the request does not supply
+    in_default: bool,
+    /// the enclosing argument contains a variable that the request does not supply (printed as null as a whole)
+    arg_unresolved: bool,
+    via_var: bool,
+    /// 0 = the argument itself is secret, 1..3 = secret input field at that nesting depth
+    depth: usize,
+    parent: PTy,
+    in_fragment: bool,
+    in_list: bool,
+    decorated: bool,
+    /// the field sits in a typed inline fragment inside a union-typed selection set
+    behind_union: bool,
+}
+
+#[derive(Clone, Copy)]
+struct Pos {
+    secret: bool,
+    list_above: bool,
+    below_list: bool,
+    untyped: bool,
+    omit_secrets: bool,
+    via_var: bool,
+    in_default: bool,
+    depth: usize,
+    parent: PTy,
+    in_fragment: bool,
+    /// the position is a list element (its type is non-null)
+    elem: bool,
+}
+
+#[derive(Clone, Copy)]
+struct Cfg {
+    /// secret input fields may sit below list values
+    f1: bool,
+    /// fields with secrets may sit under untyped inline fragments
+    f2: bool,
+    /// variable defaults of named operations may carry secrets
+    f3: bool,
+}
+
+struct G<'a> {
+    s: &'a mut dyn Src,
+    cfg: Cfg,
+    named: bool,
+    sents: Vec<Sent>,
+    vars: Vec<VarDef>,
+    frags: Vec<(PTy, Vec<Sel>)>,
+    aliases: usize,
+}
+
+const DECOR: [(&str, &str); 6] = [("", ""), ("", ""), ("q\"", "\"q"), ("b\\", "\\n"), ("\u{e9}", "\n\u{1f600}"), ("{$", "}#")];
+
+impl<'a> G<'a> {
+    fn sentinel(&mut self, pos: Pos, int: bool) -> V {
+        let n = self.sents.len();
+        let (needle, v, decorated) = if int {
+            let k = 7_300_000 + n as i64;
+            (k.to_string(), V::Int(k), false)
+        } else {
+            let core = format!("SENTINEL_{}_x", n);
+            let d = DECOR[self.s.choose(DECOR.len())];
+            (core.clone(), V::Str(format!("{}{}{}", d.0, core, d.1)), !d.0.is_empty())
+        };
+        self.sents.push(Sent {
+            needle,
+            secret: pos.secret,
+            below_list: pos.secret && pos.below_list,
+            untyped: pos.untyped,
+            in_default: pos.in_default,
+            arg_unresolved: false,
+            via_var: pos.via_var,
+            depth: pos.depth,
+            parent: pos.parent,
+            in_fragment: pos.in_fragment,
+            in_list: pos.list_above,
+            decorated,
+            behind_union: false,
+        });
+        v
+    }
+
+    fn can_hold_secret(ty: ATy) -> bool {
+        matches!(ty, ATy::In(_) | ATy::ListIn(_))
+    }
+
+    fn value(&mut self, ty: ATy, pos: Pos, allow_var: bool) -> V {
+        if allow_var && self.s.chance(1, 4) {
+            // supplied through a variable: either its value in the request, or (request silent) its default
+            let mut as_default = self.s.chance(1, 3);
+            let mut inner = Pos { via_var: true, elem: false, ..pos };
+            if as_default && self.named && !self.cfg.f3 {
+                // C21-F3 excluded by construction: defaults of named operations carry no secrets
+                if pos.secret {
+                    as_default = false;
+                } else if Self::can_hold_secret(ty) {
+                    inner.omit_secrets = true;
+                }
+            }
+            inner.in_default = as_default;
+            let v = self.value(ty, inner, false);
+            let name = format!("v{}", self.vars.len());
+            let (default, value) = if as_default { (Some(v), None) } else { (None, Some(v)) };
+            self.vars.push(VarDef { name: name.clone(), ty: format!("{}{}", ty.gql(), if pos.elem { "!" } else { "" }), default, value });
+            return V::Var(name);
+        }
+        match ty {
+            ATy::Str => self.sentinel(pos, false),
+            ATy::Int => self.sentinel(pos, true),
+            ATy::ListStr => {
+                let n = 1 + self.s.choose(3);
+                let p = Pos { list_above: true, below_list: pos.below_list || !pos.secret, elem: true, ..pos };
+                V::List((0..n).map(|_| self.value(ATy::Str, p, allow_var)).collect())
+            }
+            ATy::ListIn(t) => {
+                if self.s.chance(1, 6) {
+                    // a single item where a list is expected (input coercion)
+                    return self.object(t, Pos { elem: false, ..pos }, allow_var);
+                }
+                let n = 1 + self.s.choose(2);
+                let p = Pos { list_above: true, below_list: pos.below_list || !pos.secret, elem: true, ..pos };
+                V::List((0..n).map(|_| self.value(ATy::In(t), p, allow_var)).collect())
+            }
+            ATy::In(t) => self.object(t, pos, allow_var),
+        }
+    }
+
+    fn object(&mut self, t: InTy, pos: Pos, allow_var: bool) -> V {
+        // secrets that would leak through an excluded construct are left out
+        let omit = !pos.secret && (pos.omit_secrets || (pos.below_list && !self.cfg.f1));
+        let usable: Vec<&InputM> = in_fields(t).iter().filter(|(_, sec, _)| !(omit && *sec)).collect();
+        let chosen: Vec<&InputM> = if t == InTy::Login {
+            vec![usable[self.s.choose(usable.len())]]
+        } else {
+            let mut c: Vec<&InputM> = vec![];
+            for f in &usable {
+                // nested objects get rarer with depth so that documents stay small
+                let p = if matches!(f.2, ATy::Str | ATy::Int) { 2 } else { 3 + pos.depth as u32 };
+                if self.s.chance(1, p) {
+                    c.push(*f);
+                }
+            }
+            if c.is_empty() {
+                c.push(usable[self.s.choose(usable.len())]);
+            }
+            c
+        };
+        let mut out = vec![];
+        for (name, sec, ty) in chosen {
+            let mut p = Pos { depth: pos.depth + 1, elem: false, ..pos };
+            if *sec && !pos.secret {
+                p.secret = true;
+            }
+            let v = self.value(*ty, p, allow_var);
+            out.push((*name, v));
+        }
+        V::Obj(out)
+    }
+
+    fn args(&mut self, f: &FieldM, parent: PTy, untyped: bool, in_fragment: bool) -> Vec<(&'static str, V)> {
+        let omit = untyped && !self.cfg.f2;
+        let mut out = vec![];
+        for (name, sec, ty) in f.args {
+            if (omit && *sec) || !self.s.chance(2, 3) {
+                continue;
+            }
+            let start = self.sents.len();
+            let vars_before = self.vars.len();
+            let pos = Pos { secret: *sec, list_above: false, below_list: false, untyped, omit_secrets: omit, via_var: false, in_default: false, depth: 0, parent, in_fragment, elem: false };
+            let v = self.value(*ty, pos, true);
+            if self.vars[vars_before..].iter().any(|v| v.value.is_none()) {
+                for s in &mut self.sents[start..] {
+                    s.arg_unresolved = true;
+                }
+            }
+            out.push((*name, v));
+        }
+        out
+    }
+
+    fn selset(&mut self, ty: PTy, depth: usize, untyped: bool, in_fragment: bool, fd: usize) -> Vec<Sel> {
+        let n = 1 + self.s.choose(3);
+        let mut out = vec![];
+        for _ in 0..n {
+            let k = if fd >= 2 { 0 } else { self.s.weighted(&[6, 2, 2, 1]) };
+            match k {
+                0 => {
+                    let all = fields(ty);
+                    let cands: Vec<&FieldM> = all.iter().filter(|f| f.ret.is_none() || depth > 0).collect();
+                    if cands.is_empty() {
+                        out.push(Sel::Typename);
+                        continue;
+                    }
+                    // fields with arguments are preferred: they are what the property is about
+                    let with_args: Vec<&FieldM> = cands.iter().copied().filter(|f| !f.args.is_empty()).collect();
+                    let f = if !with_args.is_empty() && self.s.chance(2, 3) { with_args[self.s.choose(with_args.len())] } else { cands[self.s.choose(cands.len())] };
+                    let args = self.args(f, ty, untyped, in_fragment);
+                    let alias = if !args.is_empty() || self.s.chance(1, 6) {
+                        self.aliases += 1;
+                        Some(format!("a{}", self.aliases))
+                    } else {
+                        None
+                    };
+                    let sub = f.ret.map(|r| self.selset(r, depth - 1, untyped, in_fragment, 0));
+                    out.push(Sel::Field { alias, name: f.name, args, sub });
+                }
+                1 => {
+                    let conds = ty.conditions();
+                    let on = conds[self.s.choose(conds.len())];
+                    let start = self.sents.len();
+                    let sub = self.selset(on, depth, false, in_fragment, fd + 1);
+                    if ty == PTy::Actor {
+                        for s in &mut self.sents[start..] {
+                            s.behind_union = true;
+                        }
+                    }
+                    out.push(Sel::Inline { on: Some(on), sub });
+                }
+                2 => out.push(Sel::Inline { on: None, sub: self.selset(ty, depth, true, in_fragment, fd + 1) }),
+                _ => {
+                    let conds = ty.conditions();
+                    let reusable: Vec<usize> = (0..self.frags.len()).filter(|i| conds.contains(&self.frags[*i].0)).collect();
+                    if !reusable.is_empty() && (self.frags.len() >= 3 || self.s.bool()) {
+                        out.push(Sel::Spread(reusable[self.s.choose(reusable.len())]));
+                    } else if self.frags.len() < 3 {
+                        let on = conds[self.s.choose(conds.len())];
+                        let sub = self.selset(on, depth.min(1), false, true, fd + 1);
+                        self.frags.push((on, sub));
+                        out.push(Sel::Spread(self.frags.len() - 1));
+                    } else {
+                        out.push(Sel::Typename);
+                    }
+                }
+            }
+        }
+        out
+    }
+}
+
+fn print_sels(out: &mut String, sels: &[Sel]) {
+    out.push_str("{ ");
+    for s in sels {
+        match s {
+            Sel::Typename => out.push_str("__typename "),
+            Sel::Field { alias, name, args, sub } => {
+                if let Some(a) = alias {
+                    out.push_str(&format!("{}: ", a));
+                }
+                out.push_str(name);
+                if !args.is_empty() {
+                    out.push_str(&format!("({})", args.iter().map(|(k, v)| format!("{}: {}", k, v.gql())).collect::<Vec<_>>().join(", ")));
+                }
+                out.push(' ');
+                if let Some(sub) = sub {
+                    print_sels(out, sub);
+                }
+            }
+            Sel::Inline { on, sub } => {
+                out.push_str("... ");
+                if let Some(t) = on {
+                    out.push_str(&format!("on {} ", t.name()));
+                }
+                print_sels(out, sub);
+            }
+            Sel::Spread(i) => out.push_str(&format!("...F{} ", i)),
+        }
+    }
+    out.push_str("} ");
+}
+
+struct Generated {
+    query: String,
+    variables: J,
+    sents: Vec<Sent>,
+    named: bool,
+}
+
+fn gen(s: &mut dyn Src, cfg: Cfg) -> Generated {
+    let named = s.bool();
+    let mutation = s.chance(1, 6);
+    let mut g = G { s, cfg, named, sents: vec![], vars: vec![], frags: vec![], aliases: 0 };
+    let depth = 1 + g.s.choose(3);
+    let root = if mutation { PTy::Mutation } else { PTy::Query };
+    let sels = g.selset(root, depth, false, false, 0);
+    let mut q = String::new();
+    if named || mutation || !g.vars.is_empty() {
+        q.push_str(if mutation { "mutation" } else { "query" });
+        if named {
+            q.push_str(" Op");
+        }
+        if !g.vars.is_empty() {
+            let defs: Vec<String> = g.vars.iter().map(|v| format!("${}: {}{}", v.name, v.ty, v.default.as_ref().map(|d| format!(" = {}", d.gql())).unwrap_or_default())).collect();
+            q.push_str(&format!("({})", defs.join(", ")));
+        }
+        q.push(' ');
+    }
+    print_sels(&mut q, &sels);
+    for (i, (on, sub)) in g.frags.iter().enumerate() {
+        q.push_str(&format!("fragment F{} on {} ", i, on.name()));
+        print_sels(&mut q, sub);
+    }
+    let mut vars = Map::new();
+    for v in &g.vars {
+        if let Some(val) = &v.value {
+            vars.insert(v.name.clone(), val.json());
+        }
+    }
+    Generated { query: q.trim_end().to_string(), variables: J::Object(vars), sents: g.sents, named }
+}
+
+/// does `text` show the sentinel, raw or in an escaped spelling (\uXXXX, backslash escapes)?
+fn shows(text: &str, unescaped: &str, needle: &str) -> bool {
+    text.contains(needle) || unescaped.contains(needle)
+}
+fn unescape(text: &str) -> String {
+    let cs: Vec<char> = text.chars().collect();
+    let mut o = String::new();
+    let mut i = 0;
+    while i < cs.len() {
+        if cs[i] == '\\' && i + 1 < cs.len() {
+            if cs[i + 1] == 'u' && i + 5 < cs.len() {
+                let hex: String = cs[i + 2..i + 6].iter().collect();
+                if let Some(c) = u32::from_str_radix(&hex, 16).ok().and_then(char::from_u32) {
+                    o.push(c);
+                    i += 6;
+                    continue;
+                }
+            }
+            i += 1;
+            continue;
+        }
+        o.push(cs[i]);
+        i += 1;
+    }
+    o
+}
+
+struct S {
+    schema: Schema<Query, Mutation, EmptySubscription>,
+    tap: Tap,
+    open: [bool; 3],
+}
+
+fn run_case(k: &S, g: &Generated) -> Case {
+    k.tap.0.lock().unwrap().clear();
+    SINK.0.lock().unwrap().clear();
+    let req = Request::new(g.query.clone()).variables(Variables::from_json(g.variables.clone()));
+    let resp = vcore::det::block_on(k.schema.execute(req));
+    let rendered = format!("{}  variables={}", g.query, g.variables);
+    if !resp.errors.is_empty() {
+        return Case::fail(rendered, format!("harness: generated request was rejected: {:?}", resp.errors.iter().map(|e| &e.message).collect::<Vec<_>>()));
+    }
+    let tapped = k.tap.0.lock().unwrap().clone();
+    let logged = SINK.0.lock().unwrap().clone();
+    if tapped.len() != 1 || logged.len() != 1 || !logged[0].starts_with("[Execute] ") {
+        return Case::fail(rendered, format!("harness: expected one tapped text and one [Execute] log line, got {:?} / {:?}", tapped, logged));
+    }
+    let texts = [tapped[0].clone(), logged[0].clone()];
+    let unesc: Vec<String> = texts.iter().map(|t| unescape(t)).collect();
+    let mut leaked = vec![];
+    let mut predicted = vec![];
+    let mut used: [bool; 3] = [false; 3];
+    let (mut visible, mut missing) = (0, 0);
+    for s in &g.sents {
+        let shown = (0..2).any(|i| shows(&texts[i], &unesc[i], &s.needle));
+        if s.secret {
+            // quirks of the open findings: which secret sentinels they print
+            let q = if s.in_default {
+                [false, false, g.named]
+            } else if s.arg_unresolved {
+                [false, false, false]
+            } else {
+                [s.below_list, s.untyped, false]
+            };
+            let p = (0..3).any(|i| q[i] && k.open[i]);
+            if shown {
+                leaked.push(s.needle.clone());
+            }
+            if p {
+                predicted.push(s.needle.clone());
+                if shown {
+                    for i in 0..3 {
+                        used[i] |= q[i] && k.open[i];
+                    }
+                }
+            }
+        } else if !s.arg_unresolved && (!s.in_default || g.named) {
+            if shown {
+                visible += 1;
+            } else {
+                missing += 1;
+            }
+        }
+    }
+    let rendered = format!(
+        "{}  printed={}  secret-sentinels={:?} leaked={:?}",
+        rendered,
+        texts[0],
+        g.sents.iter().filter(|s| s.secret).map(|s| s.needle.as_str()).collect::<Vec<_>>(),
+        leaked
+    );
+    let sec: Vec<&Sent> = g.sents.iter().filter(|s| s.secret).collect();
+    let cls = |c: Case| {
+        let any = |f: &dyn Fn(&Sent) -> bool| sec.iter().any(|s| f(s));
+        c.nontrivial(any(&|s| s.via_var || s.depth >= 2 || s.in_fragment || s.in_list || s.untyped || s.in_default || s.parent == PTy::Principal))
+            .class_if(!sec.is_empty(), "has-secret")
+            .class_if(any(&|s| !s.via_var && s.depth == 0), "secret-literal-argument")
+            .class_if(any(&|s| s.via_var && !s.in_default), "secret-in-variable-value")
+            .class_if(any(&|s| s.in_default), "secret-in-variable-default")
+            .class_if(any(&|s| s.depth == 1), "secret-input-field-depth1")
+            .class_if(any(&|s| s.depth == 2), "secret-input-field-depth2")
+            .class_if(any(&|s| s.depth >= 3), "secret-input-field-depth3")
+            .class_if(any(&|s| s.in_list), "secret-in-list")
+            .class_if(any(&|s| s.below_list), "secret-field-below-list")
+            .class_if(any(&|s| s.untyped), "secret-under-untyped-inline")
+            .class_if(any(&|s| s.in_fragment), "secret-in-named-fragment")
+            .class_if(any(&|s| s.parent == PTy::Principal), "secret-under-interface-parent")
+            .class_if(any(&|s| matches!(s.parent, PTy::Account | PTy::Robot)), "secret-under-object-parent")
+            .class_if(any(&|s| s.behind_union), "secret-behind-union-field")
+            .class_if(any(&|s| s.parent == PTy::Mutation), "secret-in-mutation")
+            .class_if(any(&|s| s.decorated), "secret-with-escapes")
+            .class_if(visible > 0 && missing == 0, "nonsecret-sentinels-visible")
+            .class_if(missing > 0, "nonsecret-sentinel-missing")
+    };
+    if leaked.is_empty() {
+        return cls(Case::pass(rendered));
+    }
+    if leaked == predicted {
+        let ids: Vec<String> = (0..3).filter(|i| used[*i]).map(|i| format!("C21-F{}", i + 1)).collect();
+        return cls(Case::known(rendered, ids));
+    }
+    cls(Case::fail(rendered, format!("secret sentinels printed in the logged/stringified text: {:?} (open findings predict {:?})", leaked, predicted)))
+}
+
+pub fn run(ctx: &mut Ctx) {
+    ctx.rule = "type-directed random operations (query/mutation, named or anonymous, 1..3 levels, aliases, typed/untyped inline fragments, named \
+                fragments) over schema S; every scalar argument position carries a unique sentinel (strings SENTINEL_<n>_x with optional \
+                quote/backslash/newline/non-ASCII decoration, ints 7300000+n), supplied as literal, variable value, or default of a variable the \
+                request omits; non-trivial = some secret sentinel is supplied through a variable, sits at input depth >= 2, in a list, in a named \
+                fragment, under an untyped inline fragment, in a default, or under an interface parent; distinct by query + variables"
+        .into();
+    ctx.assume("a value is secret iff the argument or an input-object field on its path is marked secret (a secret argument hides everything below it)");
+    ctx.assume("a variable default counts as 'the value of the argument' only when the request does not supply the variable; defaults are generated only for omitted variables");
+    ctx.assume("only documents that validate and execute are generated (the text is produced in the parse_query hook, before validation)");
+    ctx.assume("non-secret sentinels need not be printed (the statement does not say so); their visibility is measured as a non-vacuity class with a floor");
+    ctx.assume("directive arguments carry no secrets (the printer drops directives)");
+    let _ = log::set_logger(&SINK);
+    log::set_max_level(log::LevelFilter::Info);
+    let tap = Tap::default();
+    let schema = Schema::build(Query, Mutation, EmptySubscription).extension(tap.clone()).extension(Logger).finish();
+    let open = [ctx.open("C21-F1"), ctx.open("C21-F2"), ctx.open("C21-F3")];
+    let k = S { schema, tap, open };
+
+    // explicit witnesses (regressions for the three findings and for the positions the unit test covers)
+    let lit = |q: &str, vars: J, sents: Vec<(&str, bool, [bool; 3])>, named: bool| Generated {
+        query: q.to_string(),
+        variables: vars,
+        named,
+        sents: sents
+            .into_iter()
+            .map(|(needle, secret, q)| Sent {
+                needle: needle.to_string(),
+                secret,
+                below_list: q[0],
+                untyped: q[1],
+                in_default: q[2],
+                arg_unresolved: q[2],
+                via_var: false,
+                depth: 0,
+                parent: PTy::Query,
+                in_fragment: false,
+                in_list: q[0],
+                decorated: false,
+                behind_union: false,
+            })
+            .collect(),
+    };
+    let no = [false; 3];
+    let witnesses = vec![
+        lit("{ a: login(user: \"SENTINEL_0_x\", password: \"SENTINEL_1_x\") { id } }", json!({}), vec![("SENTINEL_0_x", false, no), ("SENTINEL_1_x", true, no)], false),
+        lit(
+            "query Op($v0: Cred) { a: auth(cred: $v0) { id } }",
+            json!({"v0": {"user": "SENTINEL_0_x", "password": "SENTINEL_1_x", "inner": {"token": "SENTINEL_2_x", "deep": {"pin": 7300003}}}}),
+            vec![("SENTINEL_0_x", false, no), ("SENTINEL_1_x", true, no), ("SENTINEL_2_x", true, no), ("7300003", true, no)],
+            true,
+        ),
+        lit("{ principal { ... on Principal { a: verify(code: \"SENTINEL_0_x\", hint: \"SENTINEL_1_x\") } ...F0 } } fragment F0 on Robot { b: unlock(key: \"SENTINEL_2_x\") }", json!({}), vec![("SENTINEL_0_x", true, no), ("SENTINEL_1_x", false, no), ("SENTINEL_2_x", true, no)], false),
+        // C21-F1: secret field of an input object inside a list
+        lit("{ a: batch(creds: [{user: \"SENTINEL_0_x\", password: \"SENTINEL_1_x\"}]) }", json!({}), vec![("SENTINEL_0_x", false, no), ("SENTINEL_1_x", true, [true, false, false])], false),
+        lit("{ a: auth(cred: {inners: [{token: \"SENTINEL_0_x\"}]}) { id } }", json!({}), vec![("SENTINEL_0_x", true, [true, false, false])], false),
+        // C21-F2: inline fragment without type condition
+        lit("{ ... { a: login(password: \"SENTINEL_0_x\") { id } } }", json!({}), vec![("SENTINEL_0_x", true, [false, true, false])], false),
+        lit("{ account { ... { a: update(cred: {password: \"SENTINEL_0_x\"}) } } }", json!({}), vec![("SENTINEL_0_x", true, [false, true, false])], false),
+        // C21-F3: default value of a variable used at a secret position (named operation); anonymous operations print no definitions
+        lit("query Op($v0: String = \"SENTINEL_0_x\") { a: login(password: $v0) { id } }", json!({}), vec![("SENTINEL_0_x", true, [false, false, true])], true),
+        lit("query ($v0: String = \"SENTINEL_0_x\") { a: login(password: $v0) { id } }", json!({}), vec![("SENTINEL_0_x", true, [false, false, true])], false),
+    ];
+    for (n, w) in witnesses.iter().enumerate() {
+        if ctx.check_case("witness", run_case(&k, w), json!({"witness": n})) {
+            return;
+        }
+    }
+
+    let n = ctx.tier.pick(100_000, 2_500_000);
+    for (i, id) in ["C21-F1", "C21-F2", "C21-F3"].iter().enumerate() {
+        if open[i] {
+            ctx.excluded(id);
+        }
+    }
+    for (c, m) in [
+        ("has-secret", 40000),
+        ("nonsecret-sentinels-visible", 30000),
+        ("secret-literal-argument", 10000),
+        ("secret-in-variable-value", 6000),
+        ("secret-input-field-depth1", 6000),
+        ("secret-input-field-depth2", 3000),
+        ("secret-input-field-depth3", 1000),
+        ("secret-in-list", 2000),
+        ("secret-in-named-fragment", 3000),
+        ("secret-under-interface-parent", 1600),
+        ("secret-under-object-parent", 6000),
+        ("secret-behind-union-field", 1000),
+        ("secret-in-mutation", 2000),
+        ("secret-with-escapes", 10000),
+        ("secret-in-variable-default", 600),
+    ] {
+        ctx.floor(c, m);
+    }
+    // main search: the constructs of the open findings are switched off in the generator
+    let main = Cfg { f1: !open[0], f2: !open[1], f3: !open[2] };
+    ctx.stream("documents", n, 260, |s| run_case(&k, &gen(s, main)));
+    // probes: one construct each switched on again
+    for (i, name) in ["probe-list-of-input-objects", "probe-untyped-inline-fragment", "probe-variable-default"].iter().enumerate() {
+        let cfg = Cfg { f1: main.f1 || i == 0, f2: main.f2 || i == 1, f3: main.f3 || i == 2 };
+        ctx.stream(name, n / 10, 260, |s| run_case(&k, &gen(s, cfg)).class(*name));
+    }
 }
